@@ -2,7 +2,7 @@
 # usage: seedcheck.sh <seeded dir>   (confirms: applies, suite passes, demo fails with / passes without)
 # works in the scratch worktree /tmp/seedwt (created from /repo HEAD by the caller)
 set -u
-D=$1; W=/tmp/seedwt
+D=$1; W=${SEEDWT:-/tmp/seedwt}
 cd $W && git checkout -q -- . && rm -f tests/demo.rs
 export CARGO_TARGET_DIR=$W/target CARGO_NET_OFFLINE=true
 if ! git apply --check $D/patch.diff 2>/dev/null; then echo "RESULT $D apply=FAIL"; exit 0; fi
